@@ -635,6 +635,15 @@ func (e *Env) execOp(op *Op) (string, bool) {
 var harnessSteps = map[string]func(e *Env, st *Step) string{}
 
 func init() {
+	extraOps["store_down"] = func(e *Env, op *Op) (string, bool) {
+		e.FS.Outage = true
+		e.Res.Probes["store_outages"]++
+		return "ok", false
+	}
+	extraOps["store_up"] = func(e *Env, op *Op) (string, bool) {
+		e.FS.Outage = false
+		return "ok", false
+	}
 	harnessSteps["cancel_ctx"] = func(e *Env, st *Step) string {
 		if e.opCancel == nil {
 			return "noop"
